@@ -30,5 +30,6 @@ def step (st : S) (toks : List String) : S × String :=
       | some (_, d) => (st, if d == digest then "ok" else "CHANGED")
       | none => ({ st with handles := (hid, digest) :: st.handles }, "ok")
     | none => (st, "bad-op")
+  | "echo" :: rest => (st, " ".intercalate rest)
   | _ => (st, "bad-op")
 end Bleve.Drv.C04
